@@ -200,7 +200,16 @@ impl Ldap {
         } else {
             rx.await
         }?;
-        let (ldap_ext, controls) = (LdapResultExt::from(response.0), response.1);
+        let (ldap_ext, controls) = match LdapResultExt::try_from_tag(response.0) {
+            Some(ldap_ext) => (ldap_ext, response.1),
+            None => {
+                // well-formed envelope, but the operation inside is not an LDAPResult
+                return Err(LdapError::from(std::io::Error::new(
+                    std::io::ErrorKind::Other,
+                    "decoding error",
+                )));
+            }
+        };
         let (mut result, exop, sasl_creds) = (ldap_ext.0, ldap_ext.1, ldap_ext.2);
         result.ctrls = controls;
         Ok((result, exop, sasl_creds))
